@@ -26,8 +26,8 @@ RULE = (
     "coefficients, or a*sin(w.x+p)*exp(v.x+q)), a box, a point whose components are inside, exactly 0, on a "
     "bound or within one step of a bound, a method (forward, centred, complex step), a step (1e-8..1e-3; "
     "1e-30..1e-8 for the complex step; scalar or one per differentiated component), all components or a sorted "
-    "strict subset, no design space / a design space / a normalised design space, serial or parallel "
-    "(processes, threads); the approximation is compared entry-wise with the exact derivative within the "
+    "strict subset, no design space / a design space / a normalised design space, a constructor step that is absent, the same or different (scalar / array) from "
+    "the step passed per call, serial or parallel (processes, threads); the approximation is compared entry-wise with the exact derivative within the "
     "analytic bound of the method, and the logged evaluation points with the upper bounds.  Discipline "
     "level: a polynomial discipline with 1-3 inputs and 1-2 outputs of sizes 1-3 is linearised in the three "
     "approximation modes and checked by check_jacobian (names, indices as int / list / slice / ellipsis) "
@@ -42,6 +42,10 @@ ASSUMPTIONS = [
     "sums of absolute values of the terms on the box inflated by the step; the truncation terms carry a relative "
     "slack of 1e-6 (quadratic and cubic functions attain them exactly)",
     "a per-component step array has one entry per differentiated component (the convention of f_gradient)",
+    "the step passed to f_gradient is the step to be used whatever step (none, the same, another scalar, another "
+    "array) the constructor received; ComplexStep takes a number in its constructor",
+    "discipline cache: default, SimpleCache or MemoryFullCache with a tolerance in {0, 1e-3, 1e-2, 0.1} (far above "
+    "the step; the approximation must not be served from the cache), or no cache; every case uses a fresh discipline",
     "component subsets are sorted",
     "boxes are at least 0.5 wide, steps at most 1e-3: a flipped step never leaves the box on the other side",
     "bound safety is asserted for the upper bounds (the statement); lower-bound excursions of the centred "
